@@ -314,25 +314,32 @@ def _judge_table(ctx, real, model, up, exc, what, batches=(), earlier=()):
     ctx.count("table_updates_checked")
     info = up.info
     fn = ctx.fn
-    if up.status == "undefined":
-        if info.get("degenerate_range") and exc is not None:
-            ctx.add(D8, f"{what}: all pending direct evaluations were at x={info['lo']!r}, no "
-                    f"table exists; the adaptive update raised {exc!r} out of evaluate()",
-                    info=info)
-        if info.get("op") == "extend" and exc is not None:
-            app = _applicable(ctx, real, info, exc, batches)
-            if not app and info.get("sub_resolution") and info.get("adaptive") and \
-                    "strictly increasing" in str(exc):
-                app = [(D10, f"the pending direct evaluations reach {info['lo']!r} .. "
-                        f"{info['hi']!r}, the table is [{info['old_min']!r}, "
-                        f"{info['old_max']!r}]: the automatic extension asks for "
-                        f"{info['p_min']}/{info['p_max']} points in a gap of a few ulp and "
+    ups = list(earlier) + [up]
+    if any(u.status == "undefined" for u in ups):
+        # nothing is promised about the table; but an automatic update must not make
+        # evaluate()/derivative() raise
+        for u in ups:
+            inf = u.info
+            if u.status == "undefined" and inf.get("degenerate_range") and exc is not None:
+                ctx.add(D8, f"{what}: all pending direct evaluations were at "
+                        f"x={inf['lo']!r}, no table exists; the adaptive update raised "
+                        f"{exc!r} out of evaluate()", info=inf)
+        if exc is not None and "strictly increasing" in str(exc):
+            app = []
+            for u in ups:
+                if u.info.get("op") == "extend":
+                    app += _applicable(ctx, real, u.info, exc, batches)
+            sub = [u.info for u in ups if u.info.get("sub_resolution")
+                   and u.info.get("adaptive")]
+            if not app and sub:
+                inf = sub[0]
+                app = [(D10, f"the pending direct evaluations reach {inf['lo']!r} .. "
+                        f"{inf['hi']!r}, the table is [{inf['old_min']!r}, "
+                        f"{inf['old_max']!r}]: the automatic extension asks for "
+                        f"{inf['p_min']}/{inf['p_max']} points in a gap of a few ulp and "
                         "evaluate()/derivative() raises instead of returning the value")]
-            for mech, why in app:
+            for mech, why in {m: (m, w) for m, w in app}.values():
                 ctx.add(mech, f"{what}: raised {exc!r}; {why}", info=info)
-        ctx.unjudged += 1
-        return False
-    if any(e.status == "undefined" for e in earlier):
         ctx.unjudged += 1
         return False
     applicable = []
